@@ -237,7 +237,7 @@ def gen_autoindent(rng):
 # (boolean/integer/float/true/false); async; `with context` defaults of import; autoescape/Markup repr; loop.depth etc. are kept.
 NAMES = ['x', 'y', 'n', 'xs', 'd', 's', 'undef']
 TEXTS = ['a', 'b ', ' c', '\n', '  ', 'T\n', '\n  ', ';', 'é', '}', '{ ', '% ', '# ', '*', '-', '{*', '\t']
-SAFE_FILTERS = ['upper', 'lower', 'length', 'trim', 'first', 'last', 'string', 'list', 'capitalize', 'reverse', 'sort', 'abs',
+SAFE_FILTERS = ['upper', 'lower', 'length', 'trim', 'first', 'last', 'string', 'list', 'capitalize', 'reverse|list', 'sort', 'abs',
                 'default("dflt")', 'join(",")', 'replace("a", "b")', 'int', 'center(7)', 'e', 'sum', 'unique|list', 'min', 'max']
 TESTS = ['defined', 'none', 'even', 'odd', 'string', 'number', 'mapping', 'iterable', 'sequence', 'divisibleby(2)', 'undefined']
 
@@ -409,14 +409,15 @@ def gen_diff_case(rng, with_star_comment: bool) -> dict:
     return {'templates': templates, 'main': 'main', 'ctx': gen_ctx(rng), 'opts': opts}
 
 
-ADDR_RE = re.compile(r'(?i) at 0x[0-9a-f]+')
+# object addresses inside reprs, also after they went through upper / replace("a", ...) filters
+ADDR_RE = re.compile(r'(?i)0x[0-9a-z]{8,16}')
 
 
 def same(a: dict, b: dict) -> bool:
     if 'harness_failure' in a or 'harness_failure' in b:
         return False
     if 'ok' in a and 'ok' in b:
-        return ADDR_RE.sub(' at 0x', a['ok']) == ADDR_RE.sub(' at 0x', b['ok'])
+        return ADDR_RE.sub('0x', a['ok']) == ADDR_RE.sub('0x', b['ok'])
     return 'err' in a and 'err' in b
 
 
